@@ -1,5 +1,5 @@
 CONSTANTS Tags = {1, 2, 3}
- Keys = {1, 2}
+ Keys = {1, 2, 10}
  MaxOps = 3
  MaxScales = 2
 INIT Init
